@@ -112,7 +112,7 @@ pub fn run(ctx: &Ctx, rep: &mut Report) {
         for k in 0..reps {
             let unrelated = gen_resource_heavy(&mut r, false, false);
             let _ = compile_g(&unrelated, &opts_default(), "/u");
-            let (res, t0, t1) = match compile_g(&e, &opts_default(), "/dev/d") {
+            let (res, t0, t1) = match compile_g(&e, &crate::sut::opts_for(i), "/dev/d") {
                 Ok(v) => v,
                 Err(_) => return, // C03's subject
             };
@@ -156,7 +156,7 @@ pub fn run(ctx: &Ctx, rep: &mut Report) {
                 std::thread::sleep(std::time::Duration::from_millis(1100));
                 rep.count("recompiled_after_sleep");
             }
-            let (res, t0, t1) = match compile_g(&e, &opts_default(), "/d") {
+            let (res, t0, t1) = match compile_g(&e, &crate::sut::opts_for(i), "/d") {
                 Ok(v) => v,
                 Err(_) => return,
             };
